@@ -45,6 +45,9 @@ type caseObs struct {
 //	ok:<dst>:<n>     destination confirms its next n records        (dst "dlq" = every DLQ connector)
 //	nk:<dst>:<n>     destination refuses its next n records
 //	slow:<src>:<us>  the source plugin's Stop call takes us microseconds (a slow plugin)
+//	ah:<src> / ar:<src>  the source plugin stops / resumes consuming acks (the engine's ack send stays in flight)
+//	z:<ms>           sleep (e.g. past the persister's 50 ms debounce)
+//	wc               wait for the first store commit after the stop was called
 //	hold / free      close / open the store's commit gate
 //	stop             StopAndWait (not awaited: the schedule goes on)
 //	force            Stop(force)
@@ -61,6 +64,7 @@ func play(c caseIn) caseObs {
 	w := sys.W
 	var stopDone, forceDone <-chan struct{}
 	stopped, forced := false, false
+	commitsAtStop := 1 << 30
 	heldAtEnd := false
 	quiet := func() { w.Settle(250*time.Microsecond, 20*time.Millisecond) }
 	for _, st := range c.Sched {
@@ -86,6 +90,20 @@ func play(c caseIn) caseObs {
 			us, _ := strconv.Atoi(f[2])
 			w.SlowStop(f[1], us)
 			continue
+		case "ah", "ar":
+			w.HoldAcks(f[1], f[0] == "ah")
+			continue
+		case "z":
+			ms, _ := strconv.Atoi(f[1])
+			if ms > 200 {
+				ms = 200
+			}
+			time.Sleep(time.Duration(ms) * time.Millisecond)
+			continue
+		case "wc":
+			// wait for the first store commit after the stop was called (Teardown's forced flush)
+			w.WaitFor(2*time.Second, func(l []stopx.Ev) bool { return countCommits(l) > commitsAtStop })
+			continue
 		case "hold":
 			w.HoldCommits()
 			heldAtEnd = true
@@ -94,6 +112,7 @@ func play(c caseIn) caseObs {
 			heldAtEnd = false
 		case "stop":
 			if !stopped && !forced {
+				commitsAtStop = countCommits(w.Events())
 				_, stopDone = sys.Call("stopwait")
 				stopped = true
 			}
@@ -230,6 +249,16 @@ func finishForce(sys *stopx.Sys, c caseIn, o *caseObs, stopDone, forceDone <-cha
 	if !stopx.WaitCh(sd, 25*time.Second) {
 		o.Hung = "final-stopwait"
 	}
+}
+
+func countCommits(l []stopx.Ev) int {
+	n := 0
+	for _, e := range l {
+		if e.K == "commit" {
+			n++
+		}
+	}
+	return n
 }
 
 func heldCommits(sched []string) bool {
@@ -472,6 +501,41 @@ func genBase(r *hx.Rand, t stopx.Topo, n int, storeGate bool) []string {
 	return sched
 }
 
+// directed: the plugin parks the consumption of ack k while it is in flight; record k+1 is handled and
+// acked by the engine; the stop arrives; only then the plugin consumes ack k. The final ack (k+1) is
+// enqueued by Teardown's forced flush while the delivery goroutine is still busy with ack k.
+func directedAckInFlight(t stopx.Topo, k int) []string {
+	oks := func(n int) []string {
+		var out []string
+		for d := 1; d <= t.Dests; d++ {
+			out = append(out, fmt.Sprintf("ok:d%d:%d", d, n))
+		}
+		return out
+	}
+	sched := []string{"start"}
+	if k > 1 {
+		sched = append(sched, fmt.Sprintf("e:s1:%d", k-1))
+		sched = append(sched, oks(k-1)...)
+		sched = append(sched, "z:70") // flushed and delivered
+	}
+	// the plugin's pending receive still takes one ack after the gate closed; the one after that stays in flight
+	sched = append(sched, "ah:s1", "e:s1:1")
+	sched = append(sched, oks(1)...)
+	sched = append(sched, "z:70", "e:s1:1")
+	sched = append(sched, oks(1)...)
+	sched = append(sched, "z:70", "e:s1:1") // ack k is durable and in flight to the parked plugin
+	sched = append(sched, oks(1)...)
+	sched = append(sched, "w", "stop!", "wc", "z:10", "ar:s1")
+	return sched
+}
+
+var directedTopos = []stopx.Topo{
+	{Sources: 1, Dests: 1},
+	{Sources: 1, Dests: 2},
+	{Sources: 1, Dests: 1, Procs: 1},
+	{Sources: 2, Dests: 1},
+}
+
 func withStopAt(base []string, i int, what string) []string {
 	if i < 1 {
 		i = 1
@@ -487,6 +551,15 @@ func withStopAt(base []string, i int, what string) []string {
 
 // emitCorpus: hand-written shapes, run by shard 0 of every tier.
 func emitCorpus(w *hx.Writer, o hx.Opts, prop string) {
+	if o.Shard == 0 && prop == "c06" {
+		for _, e := range []string{"v1", "v2"} {
+			for k := 1; k <= 3; k++ {
+				t := directedTopos[(k-1)%len(directedTopos)]
+				t.Engine = e
+				emit(w, caseIn{Prop: prop, Topo: t, Sched: directedAckInFlight(t, k)})
+			}
+		}
+	}
 	if o.Shard == 0 && prop == "c06" && !strings.Contains(o.Mode, "noslow") {
 		// the store stalls for longer than the source teardown budget: both engines, once
 		for _, e := range []string{"v1", "v2"} {
@@ -574,6 +647,12 @@ func main() {
 			ti := (o.Shard*o.N + i)
 			t := topos[ti%len(topos)]
 			t.Engine = []string{"v1", "v2"}[(ti/len(topos))%2]
+			if prop == "c06" && i%4 == 3 {
+				dt := directedTopos[r.Intn(len(directedTopos))]
+				dt.Engine = t.Engine
+				emit(w, caseIn{Prop: prop, Topo: dt, Sched: directedAckInFlight(dt, r.Range(1, 4))})
+				continue
+			}
 			base := genBase(r, t, r.Range(3, 16), prop == "c06")
 			p := r.Range(1, len(base))
 			st := what
